@@ -93,6 +93,11 @@ SplitRangeFrom(cur, e, st, iv) ==
 SplitRange(s, e, st, iv) ==
     IF s = e THEN <<[start |-> s, end |-> s, step |-> st]>> ELSE SplitRangeFrom(s, e, st, iv)
 
+(* dynamicIntervalFn (roundtrip.go): without a static split interval the interval depends on the     *)
+(* query length: twice the maximum or longer -> the maximum; longer than the minimum -> length /       *)
+(* horizontal shards; otherwise the minimum.  (Config.Validate demands all three > 0.)                 *)
+DynInterval(len, mn, mx, sh) == IF len \div mx >= 2 THEN mx ELSE IF len > mn THEN len \div sh ELSE mn
+
 (* Labels / series requests (step is reported as 1 by the request types).  The loop does not  *)
 (* run at all for start = end; splitQuery then falls back to one sub-request [s, s].          *)
 RECURSIVE SplitMetaFrom(_, _, _)
@@ -293,4 +298,75 @@ FrontendDo(cfg, w, cache, q) ==
 CacheRanges(cache) ==
     UNION { { <<k[1], cache[k][i].start, cache[k][i].end>> : i \in DOMAIN cache[k] } : k \in DOMAIN cache }
 
+
+(* ======================================================================= *)
+(* Phase 2: metadata requests (label names, label values, series) go       *)
+(* through the SAME results cache code (labels tripperware: split by       *)
+(* interval -> results cache with ThanosResponseExtractor), and instant    *)
+(* queries pass the tripperware without cache or split.                    *)
+(* ======================================================================= *)
+(* property level: a metadata answer is determined by the set of series that have a sample in the   *)
+(* requested range (ids; label names / values / label sets are functions of that set).  Label APIs  *)
+(* may return supersets (DESIGN 2.2), so the cache must not LOSE anything the direct answer has and  *)
+(* must not invent series that do not exist at all.  An instant query is answered directly.          *)
+PresentIn(wins, s, e) == \E i \in DOMAIN wins : wins[i].lo <= e /\ s <= wins[i].hi
+MetaDirect(w, s, e) == { k \in 1..Len(w) : PresentIn(w[k], s, e) }
+MetaNothingLost(resp, w, s, e) == MetaDirect(w, s, e) \subseteq resp
+MetaNothingInvented(resp, w) == resp \subseteq { k \in 1..Len(w) : w[k] # <<>> }
+
+(* algorithm level.  request r = [kind, s, e]; key = <<kind, interval index>>; the step of these      *)
+(* requests is 1; the extractor returns a cached response WHOLE, whatever part of it overlaps.         *)
+MetaExtentBefore(a, b) == a.start < b.start \/ (a.start = b.start /\ a.end > b.end)
+RECURSIVE MetaInsertExtent(_, _)
+MetaInsertExtent(sorted, x) ==
+    IF sorted = <<>> THEN <<x>>
+    ELSE IF MetaExtentBefore(x, sorted[Len(sorted)])
+         THEN Append(MetaInsertExtent(SubSeq(sorted, 1, Len(sorted) - 1), x), sorted[Len(sorted)])
+         ELSE Append(sorted, x)
+RECURSIVE MetaSortFrom(_, _, _)
+MetaSortFrom(xs, i, acc) == IF i > Len(xs) THEN acc ELSE MetaSortFrom(xs, i + 1, MetaInsertExtent(acc, xs[i]))
+RECURSIVE MetaAccumulateFrom(_, _, _, _)
+MetaAccumulateFrom(xs, i, acc, out) ==
+    IF i > Len(xs) THEN Append(out, acc)
+    ELSE LET x == xs[i] IN
+         IF acc.end + 1 < x.start THEN MetaAccumulateFrom(xs, i + 1, x, Append(out, acc))
+         ELSE IF acc.end >= x.end THEN MetaAccumulateFrom(xs, i + 1, acc, out)
+         ELSE MetaAccumulateFrom(xs, i + 1, [start |-> acc.start, end |-> x.end, resp |-> acc.resp \cup x.resp], out)
+RECURSIVE MetaPartitionFrom(_, _, _, _, _, _, _)
+MetaPartitionFrom(cfg, r, exts, i, start, reqs, cached) ==
+    IF i > Len(exts) THEN [start |-> start, reqs |-> reqs, cached |-> cached]
+    ELSE LET x == exts[i] IN
+         IF x.end < start \/ x.start > r.e THEN MetaPartitionFrom(cfg, r, exts, i + 1, start, reqs, cached)
+         ELSE IF r.s # r.e /\ r.e - r.s > cfg.minext /\ x.end - x.start < cfg.minext
+           THEN MetaPartitionFrom(cfg, r, exts, i + 1, start, reqs, cached)
+         ELSE MetaPartitionFrom(cfg, r, exts, i + 1, x.end,
+                  IF start < x.start THEN Append(reqs, [s |-> start, e |-> x.start]) ELSE reqs,
+                  Append(cached, x.resp))
+SeqUnion(ss) == UNION { ss[i] : i \in DOMAIN ss }
+MetaHandleHit(cfg, w, r, exts) ==
+    LET p == MetaPartitionFrom(cfg, r, exts, 1, r.s, <<>>, <<>>)
+        reqs1 == IF p.start < r.e THEN Append(p.reqs, [s |-> p.start, e |-> r.e]) ELSE p.reqs
+        reqs == IF r.s = r.e /\ p.cached = <<>> THEN Append(reqs1, [s |-> r.s, e |-> r.e]) ELSE reqs1
+    IN IF reqs = <<>> THEN [resp |-> SeqUnion(p.cached), exts |-> <<>>]
+       ELSE LET rr == [i \in DOMAIN reqs |-> MetaDirect(w, reqs[i].s, reqs[i].e)]
+                newx == [i \in DOMAIN reqs |-> [start |-> reqs[i].s, end |-> reqs[i].e, resp |-> rr[i]]]
+                sorted == MetaSortFrom(exts \o newx, 1, <<>>)
+            IN [resp |-> SeqUnion(p.cached) \cup SeqUnion(rr),
+                exts |-> MetaAccumulateFrom(sorted, 2, sorted[1], <<>>)]
+MetaCacheDo(cfg, w, cache, kind, r) ==
+    LET key == <<kind, r.s \div cfg.iv>> IN
+    IF key \in DOMAIN cache
+      THEN LET h == MetaHandleHit(cfg, w, r, cache[key])
+           IN [resp |-> h.resp, cache |-> IF h.exts # <<>> THEN Put(cache, key, h.exts) ELSE cache]
+    ELSE LET d == MetaDirect(w, r.s, r.e)
+         IN [resp |-> d, cache |-> Put(cache, key, <<[start |-> r.s, end |-> r.e, resp |-> d]>>)]
+RECURSIVE MetaSubsDoFrom(_, _, _, _, _, _, _)
+MetaSubsDoFrom(cfg, w, cache, kind, subs, i, resp) ==
+    IF i > Len(subs) THEN [resp |-> resp, cache |-> cache]
+    ELSE LET d == MetaCacheDo(cfg, w, cache, kind, [s |-> subs[i].start, e |-> subs[i].end])
+         IN MetaSubsDoFrom(cfg, w, d.cache, kind, subs, i + 1, resp \cup d.resp)
+(* q = [kind, s, e]; kind 0 = instant query (no split, no cache), 1 = label names, 2 = label values, 3 = series *)
+MetaFrontendDo(cfg, w, cache, q) ==
+    IF q.kind = 0 THEN [resp |-> MetaDirect(w, q.s, q.s), cache |-> cache]
+    ELSE MetaSubsDoFrom(cfg, w, cache, q.kind, SplitMeta(q.s, q.e, cfg.iv), 1, {})
 =============================================================================
